@@ -189,6 +189,28 @@ def make_data(kind, seed, npts):
     raise ValueError(kind)
 
 
+SYNTH_FUNS = ['x', 'a0*x', 'a0 + a1*x', 'a0 + a1*x + a2*x**2', 'a0 + a1*x + a2*x**2 + a3*x**3 + a4*x**4', 'a0*x**2', 'a0/x + a1',
+              'a0 + a1*x + a2*x**2 + a3*x**3', 'a0*x + a1*x**2 + a2*x**3 + a3*x**4 + a4*x**5', 'a0 + a1/x', 'x**2', 'a0*x**3 + a1']
+
+
+def write_synth_lib(d, comp, seed):
+    rng = random.Random(seed)
+    funs = list(SYNTH_FUNS)
+    rng.shuffle(funs)
+    funs = funs[:rng.randint(4, len(funs))]
+    os.makedirs(d, exist_ok=True)
+    for name in ('unique_equations', 'all_equations'):
+        with open('%s/%s_%d.txt' % (d, name, comp), 'w') as f:
+            f.write(''.join(s + '\n' for s in funs))
+    with open('%s/matches_%d.txt' % (d, comp), 'w') as f:
+        f.write(''.join('%d\n' % i for i in range(len(funs))))
+    with open('%s/inv_subs_%d.txt' % (d, comp), 'w') as f:
+        f.write('\n' * len(funs))
+    with open('%s/aifeyn_%d.txt' % (d, comp), 'w') as f:
+        f.write(''.join('%r\n' % (comp * 1.0986122886681098 + 0.1 * i) for i in range(len(funs))))
+    return funs
+
+
 def install_lib(scratch, lib_src, runname):
     dst = libdir(scratch, runname)
     os.makedirs(os.path.dirname(dst), exist_ok=True)
@@ -243,7 +265,11 @@ def fit_world(args, scratch):
     os.makedirs(scratch, exist_ok=True)
     make_farm(scratch, args.get('canary'), args.get('repo'))
     runname, comp = args['runname'], int(args['compl'])
-    if args.get('lib_src') and os.path.isdir(args['lib_src']):
+    if runname.startswith('synth'):
+        # hand-written high-complexity library (complexity >= 11 makes the parameter table 5+ columns wide and puts
+        # functions with 5 parameters on some ranks only) - real libraries of that size are out of budget
+        write_synth_lib(libdir(scratch, runname, comp), comp, int(args.get('synth_seed', 0)))
+    elif args.get('lib_src') and os.path.isdir(args['lib_src']):
         install_lib(scratch, args['lib_src'], runname)
     else:
         # replay in a later process: the fixture directory of the original check run is gone; regenerate it
@@ -519,7 +545,8 @@ def history_world(args, scratch):
     import hashlib
     dg = hashlib.sha256()
     for si, seg in enumerate(args['segments']):
-        a = dict(args, P=seg['P'], seed=int(args.get('seed', 0)) + si, script=None)
+        a = dict(args, P=seg['P'], seed=int(args.get('seed', 0)) + si, script=None, plan=seg.get('plan'),
+                 tick_modules=['esr.generation.simplifier'] if seg.get('plan') else [])
         res = run_world(world_spec(a, seg['program']), H)
         last = res
         out['real_expired'] = out.get('real_expired', 0) + sum(((rk.get('clock') or {}).get('real_expired', 0)) for rk in res['ranks'])
